@@ -18,8 +18,8 @@ RULE = ('cases = corpus + templates covering every statement kind x 3 dialects (
 ASSUMPTIONS = ['identical tree = equal reflective struct (class + all attributes incl. alias and parentheses)',
                'statements rejected on first parse are outside C01']
 BUDGET = {'quick': (12, 90), 'thorough': (16, 600)}
-SIZES = {'quick': dict(n_templates=4000, n_mut=12000, n_soup=0, n_noise=False),
-         'thorough': dict(n_templates=40000, n_mut=150000, n_soup=0, n_noise=False)}
+SIZES = {'quick': dict(n_templates=4000, n_mut=12000, n_soup=0, n_noise=False, n_lexeme=9000),
+         'thorough': dict(n_templates=40000, n_mut=150000, n_soup=0, n_noise=False, n_lexeme=60000)}
 
 
 def floors(tier):
@@ -148,7 +148,7 @@ def node_size(n):
 
 
 STATEMENT_CLASSES = ('Select', 'Union', 'Intersect', 'Except')
-EXPR_CLASSES = ('Identifier', 'Constant', 'NullConstant', 'Last', 'Latest', 'Star', 'BinaryOperation', 'UnaryOperation',
+EXPR_CLASSES = ('Identifier', 'Constant', 'NullConstant', 'Latest', 'Star', 'BinaryOperation', 'UnaryOperation',
                 'BetweenOperation', 'Function', 'WindowFunction', 'Case', 'TypeCast', 'Tuple', 'Parameter', 'Variable',
                 'Interval', 'Exists', 'NotExists')
 
@@ -362,6 +362,10 @@ def features(N):
             ap = a.parts[0]
             if not isinstance(ap, str) or not re.fullmatch(r'[A-Za-z_][A-Za-z_0-9]*', ap):
                 f.append('alias-special')
+            else:
+                from mindsdb_sql.parser.ast.select.identifier import get_reserved_words
+                if ap.upper() in {w.upper() for w in get_reserved_words()}:
+                    f.append('alias-special')
         except Exception:
             f.append('alias-odd')
     return '+'.join(sorted(set(f)))
@@ -385,6 +389,8 @@ def localise(A, dialect, kind, detail):
             sig['reject_at'] = d2.get('reject_at', '?')
         return sig, {'node_path': path, 'node_text': _safe_str(N)[:200]}
     sig = {'kind': kind, 'node': stmt, 'feat': 'statement-level', 'dialect_class': dclass(dialect)}
+    if stmt == 'Show' and getattr(A, 'name', None) is not None:
+        sig['feat'] = 'statement-level show-with-name'
     if kind == 'tree-differs':
         sig['diff'] = detail.get('diff', '')[:120]
     if kind == 'reparse-rejected':
